@@ -66,6 +66,16 @@ def kind_index(spec):
   return idx
 
 
+def _uses_hiding(spec):
+  def has(n):
+    return any(k in ("Visibility", "Opacity") for k in (n.get("st") or {})) or any(a[0] in ("Visibility", "Opacity") for a in n.get("an") or [])
+  if any(i[0] in ("Visibility", "Opacity") for i in spec.get("init") or []):
+    return True
+  if any(has(r) for r in spec.get("regions") or []):
+    return True
+  return bool(spec.get("body")) and any(has(n) for n, _ in walk(spec["body"]))
+
+
 def expected_at(spec, t, idx=None, with_ruby_text=True):
   """-> list of (region id, [paragraph lines]) where a paragraph line = list of (char, span id)"""
   idx = idx or kind_index(spec)
@@ -75,12 +85,26 @@ def expected_at(spec, t, idx=None, with_ruby_text=True):
       if n.get("id") is not None:
         space_of[n["id"]] = n.get("sp") or "default"
   snap = r_isd(spec, t)
+  # text whose computed visibility is hidden, and everything in a region whose computed opacity is 0, is presented but not
+  # visible: C06 speaks of visible text (the style reference is only consulted for documents that use these properties)
+  st = None
+  if _uses_hiding(spec):
+    from mc.ref_style import r_style
+    st = r_style(spec, t)
   out = []
   for rid, leaves in snap.items():
     lines = []
     cur = []
     cur_p = None
+    rs = st.get(rid) if st is not None else None
+    if rs is not None and float(rs[rid][1]["Opacity"]) == 0:
+      out.append((rid, []))
+      continue
     for kind, txt, chain in leaves:
+      if rs is not None and kind != "br":
+        holder = next((i for i in reversed(chain) if i in rs), None)
+        if holder is not None and rs[holder][1]["Visibility"][2] == "hidden":
+          continue
       p = _p_of(chain, idx)
       if p != cur_p:
         if cur:
@@ -233,6 +257,46 @@ def style_doc(s1, s2, s3, on_p):
   if on_p:
     p["st"] = copy.deepcopy(STYLE_MENU[on_p])
   return doc_spec(node("body", [node("div", [p], id="d1")], id="b"), [{"id": "r1"}])
+
+
+HIDDEN = ["E", "VisibilityType", "hidden"]
+VISIBLE = ["E", "VisibilityType", "visible"]
+HIDING_MODES = ["span-hidden", "p-hidden-inner-visible", "region-hidden", "region-opacity-0", "region-opacity-half", "first-p-hidden",
+                "span-revealed-by-animation", "span-hidden-by-animation", "initial-hidden-span-visible"]
+
+
+def hiding_doc(mode):
+  """text that is presented but not visible: tts:visibility (inherited, an inner 'visible' shows again) and tts:opacity 0 of the region"""
+  inner = node("span", [text("in")], id="s3")
+  mid = node("span", [text("mid"), inner, text("dle")], id="s2")
+  outer = node("span", [text("out"), mid, text("er")], id="s1")
+  p1 = node("p", [outer, {"k": "br", "id": "br1"}, _span("s4", "plain")], id="p1", b=F(1), e=F(3), r="r1")
+  p2 = node("p", [_span("s5", "second")], id="p2", b=F(3), e=F(4), r="r1")
+  reg = {"id": "r1"}
+  spec = doc_spec(node("body", [node("div", [p1, p2], id="d1")], id="b"), [reg])
+  if mode == "span-hidden":
+    mid["st"] = {"Visibility": HIDDEN}
+    inner["st"] = {"Visibility": VISIBLE}
+  elif mode == "p-hidden-inner-visible":
+    p1["st"] = {"Visibility": HIDDEN}
+    inner["st"] = {"Visibility": VISIBLE}
+  elif mode == "region-hidden":
+    reg["st"] = {"Visibility": HIDDEN}
+  elif mode == "region-opacity-0":
+    reg["st"] = {"Opacity": 0}
+  elif mode == "region-opacity-half":
+    reg["st"] = {"Opacity": 0.5}
+  elif mode == "first-p-hidden":
+    p1["st"] = {"Visibility": HIDDEN}
+  elif mode == "span-revealed-by-animation":
+    mid["st"] = {"Visibility": HIDDEN}
+    mid["an"] = [["Visibility", F(1), F(3, 2), VISIBLE]]      # relative to the span's parent chain: p1 begins at 1
+  elif mode == "span-hidden-by-animation":
+    outer["an"] = [["Visibility", F(1, 2), None, HIDDEN]]
+  elif mode == "initial-hidden-span-visible":
+    spec["init"] = [["Visibility", HIDDEN]]
+    inner["st"] = {"Visibility": VISIBLE}
+  return spec
 
 
 def fam_style_items(thorough=False):
